@@ -49,11 +49,14 @@ theorem minshould_kept_aux :
     decide
   · simp [q, Plan.rewriteNone]
 
-/-- **fuzziness_0_panics_witness**: `NewFuzzySearcher` with fuzziness 0 indexes `automatons[0]` of an
-empty slice (fuzziness 1, 2 construct a searcher; 3 and negative values are errors) -/
+/-- **fuzziness_0_panics_witness**: before 2b928d2 `NewFuzzySearcher` with fuzziness 0 indexed `automatons[0]`
+of an empty slice (fuzziness 1, 2 construct a searcher; 3 and negative values are errors); now fuzziness 0
+constructs a searcher (an exact term search) -/
 theorem fuzziness_0_panics_aux :
-    fuzzyOutcome 0 = .panic ∧ fuzzyOutcome 1 = .ok ∧ fuzzyOutcome 2 = .ok ∧ fuzzyOutcome 3 = .err ∧
-    fuzzyOutcome (-1) = .err := by decide
+    fuzzyOutcomePre 0 = .panic ∧ fuzzyOutcomePre 1 = .ok ∧ fuzzyOutcomePre 2 = .ok ∧ fuzzyOutcomePre 3 = .err ∧
+    fuzzyOutcomePre (-1) = .err ∧
+    fuzzyOutcome 0 = .ok ∧ fuzzyOutcome 1 = .ok ∧ fuzzyOutcome 2 = .ok ∧ fuzzyOutcome 3 = .err ∧ fuzzyOutcome (-1) = .err := by
+  decide
 
 /-- **termrange_inverted_witness**: an inverted term range with exclusive max — meaning: no term —
 enumerates the term equal to `max` (vellum's FST range search when start ≥ end) -/
